@@ -209,8 +209,40 @@ func (gp *c19GraphPrinter) exp(e *c19Enc, x syntax.Exp) {
 	}
 }
 
-// c19GraphLines prints the real graph, one line per node, sorted.
-func c19GraphLines(g syntax.CallGraphNode) (lines []string, odd string, err error) {
+type c19GNode struct {
+	Fqid, Callable, Kind string
+	Keys                 []string          // input names, sorted
+	Ins                  map[string]string // input name -> printed resolved expression
+	Out, Ret             string
+}
+
+func (n *c19GNode) line() string {
+	var e c19Enc
+	e.tok("(")
+	e.tok("N")
+	e.tok(n.Fqid)
+	e.tok(n.Callable)
+	e.tok(n.Kind)
+	e.tok("(")
+	for _, k := range n.Keys {
+		e.tok("(")
+		e.tok(k)
+		e.tok(n.Ins[k])
+		e.tok(")")
+	}
+	e.tok(")")
+	e.tok(n.Out)
+	e.tok("(")
+	if n.Ret != "" {
+		e.tok(n.Ret)
+	}
+	e.tok(")")
+	e.tok(")")
+	return e.sb.String()
+}
+
+// c19GraphNodes walks the real graph.
+func c19GraphNodes(g syntax.CallGraphNode) (nodes []*c19GNode, odd string, err error) {
 	defer func() {
 		if p := recover(); p != nil {
 			err = fmt.Errorf("PANIC while printing the call graph: %v", p)
@@ -228,58 +260,92 @@ func c19GraphLines(g syntax.CallGraphNode) (lines []string, odd string, err erro
 	}
 	walk(g)
 	for _, n := range all {
-		var e c19Enc
-		e.tok("(")
-		e.tok("N")
-		e.tok(n.GetFqid())
-		e.tok(n.Callable().GetId())
+		gn := &c19GNode{Fqid: n.GetFqid(), Callable: n.Callable().GetId(), Kind: "S", Ins: map[string]string{}}
 		if n.Kind() == syntax.KindPipeline {
-			e.tok("P")
-		} else {
-			e.tok("S")
+			gn.Kind = "P"
 		}
 		ins := n.ResolvedInputs()
-		keys := make([]string, 0, len(ins))
 		for k := range ins {
-			keys = append(keys, k)
+			gn.Keys = append(gn.Keys, k)
 		}
-		sort.Strings(keys)
-		e.tok("(")
-		for _, k := range keys {
-			e.tok("(")
-			e.tok(k)
+		sort.Strings(gn.Keys)
+		for _, k := range gn.Keys {
 			if ins[k] == nil {
-				e.tok("?nil")
+				gn.Ins[k] = "?nil"
 			} else {
+				var e c19Enc
 				gp.exp(&e, ins[k].Exp)
+				gn.Ins[k] = e.sb.String()
 			}
-			e.tok(")")
 		}
-		e.tok(")")
 		if out := n.ResolvedOutputs(); out != nil {
+			var e c19Enc
 			gp.exp(&e, out.Exp)
+			gn.Out = e.sb.String()
 		} else {
 			// a stage without outputs has no resolved output binding
-			e.tok("( L " + hx("null") + " )")
+			gn.Out = "( L " + hx("null") + " )"
 		}
-		e.tok("(")
 		if n.Kind() == syntax.KindPipeline {
+			var e c19Enc
 			for _, r := range n.Retained() {
 				gp.exp(&e, r)
 			}
+			gn.Ret = e.sb.String()
 		}
-		e.tok(")")
-		e.tok(")")
 		if len(n.Disabled()) > 0 {
 			gp.odd = "disabled"
 		}
 		if len(n.ForkRoots()) > 0 {
 			gp.odd = "forks"
 		}
-		lines = append(lines, e.sb.String())
+		nodes = append(nodes, gn)
+	}
+	return nodes, gp.odd, nil
+}
+
+// c19GraphLines prints the real graph, one line per node, sorted.
+func c19GraphLines(g syntax.CallGraphNode) (lines []string, odd string, err error) {
+	nodes, odd, err := c19GraphNodes(g)
+	if err != nil {
+		return nil, odd, err
+	}
+	for _, n := range nodes {
+		lines = append(lines, n.line())
 	}
 	sort.Strings(lines)
-	return lines, gp.odd, nil
+	return lines, odd, nil
+}
+
+// c19GraphLe: every node of `after` is a node of `before` with the same callable, kind, resolved
+// outputs and retained references, and every resolved input of it is an input of the original
+// node with the same resolved value (the conclusion of remove_unused_calls_loop_graph).
+func c19GraphLe(after, before []*c19GNode) string {
+	idx := map[string]*c19GNode{}
+	for _, n := range before {
+		idx[n.Fqid] = n
+	}
+	for _, n := range after {
+		m := idx[n.Fqid]
+		if m == nil {
+			return "node " + n.Fqid + " does not exist before the edit"
+		}
+		if m.Callable != n.Callable || m.Kind != n.Kind {
+			return "node " + n.Fqid + ": callable / kind changed"
+		}
+		if m.Out != n.Out {
+			return "node " + n.Fqid + ": resolved outputs changed: " + m.Out + " -> " + n.Out
+		}
+		if m.Ret != n.Ret {
+			return "node " + n.Fqid + ": retained references changed"
+		}
+		for _, k := range n.Keys {
+			if v, ok := m.Ins[k]; !ok || v != n.Ins[k] {
+				return "node " + n.Fqid + ": resolved input " + k + " changed: " + v + " -> " + n.Ins[k]
+			}
+		}
+	}
+	return ""
 }
 
 func c19ModelGraphLines(rep string) []string {
@@ -424,16 +490,22 @@ func c19GraphTheorems(c *Ctx, cs *c19Case, plain *syntax.Ast, base *c19Compiled)
 		}
 		return cs
 	}
-	n := 2
+	n := 1
 	if c.Thorough {
-		n = 3
+		n = 2
 	}
 	var rems []cand
 	for _, cd := range ins {
 		rems = append(rems, cand{"removeInput", cd.callable, cd.param})
 	}
+	var remo []cand
+	for _, cd := range outs {
+		remo = append(remo, cand{"removeOutput", cd.callable, cd.param})
+	}
 	all := append(append(pick(ins, n), pick(outs, n)...), pick(cals, 1)...)
 	all = append(all, pick(rems, n)...)
+	all = append(all, pick(remo, n)...)
+	all = append(all, cand{"removeCalls", "", ""})
 	for _, cd := range all {
 		newName := "zz_fresh"
 		if cd.op == "renameCallable" {
@@ -443,7 +515,11 @@ func c19GraphTheorems(c *Ctx, cs *c19Case, plain *syntax.Ast, base *c19Compiled)
 		if a == "" {
 			a = "-"
 		}
-		rep := c.Drv.Ask("C19.gthm", enc, types, cd.op, cd.callable, a, newName)
+		cname := cd.callable
+		if cname == "" {
+			cname = "-"
+		}
+		rep := c.Drv.Ask("C19.gthm", enc, types, cd.op, cname, a, newName)
 		f := map[string]string{}
 		for _, kv := range strings.Fields(rep) {
 			if j := strings.IndexByte(kv, '='); j > 0 {
@@ -452,6 +528,18 @@ func c19GraphTheorems(c *Ctx, cs *c19Case, plain *syntax.Ast, base *c19Compiled)
 		}
 		r.hist("graph-theorem:" + cd.op + " hyp=" + f["hyp"])
 		e := c19Edit{Op: cd.op, Callable: cd.callable, Param: cd.param, NewName: newName}
+		if cd.op == "removeCalls" {
+			e = c19Edit{Op: "removeUnused", Calls: true}
+		}
+		if f["derived"] != "" {
+			r.hist("graph-theorem:removeInput derived-hyp=" + f["derived"])
+			if f["implies"] != "true" {
+				r.violate(Violation{Kind: "correspondence", Key: "C19:graph-theorem-instance",
+					What:   "StructOK and seedOK hold but RemInsOK of the closure does not (closure_remInsOK): " + rep,
+					Input:  c19Replay{Program: cs.Src, Edit: e, Note: "found in " + cs.Name},
+					Broken: "Props.C19.remove_input_closure_graph"})
+			}
+		}
 		if rep == "bad-op" || (f["hyp"] == "true" && f["same"] != "true") {
 			r.violate(Violation{Kind: "correspondence", Key: "C19:graph-theorem-instance",
 				What:   "an instance of the call-graph theorem for " + cd.op + " evaluates to false in the model (or could not be evaluated): " + rep,
@@ -470,9 +558,27 @@ func c19GraphTheorems(c *Ctx, cs *c19Case, plain *syntax.Ast, base *c19Compiled)
 			continue
 		}
 		after, err := c19Compile(out, cs.Path)
-		if (err != nil || after.Graph == nil) && cd.op == "removeInput" {
+		if (err != nil || after.Graph == nil) && strings.HasPrefix(cd.op, "remove") {
 			// removals that do not compile are the known findings KF4/KF5, handled by the main edit loop
-			r.hist("graph-theorem:removeInput:real-result-does-not-compile")
+			r.hist("graph-theorem:" + cd.op + ":real-result-does-not-compile")
+			continue
+		}
+		if cd.op == "removeCalls" {
+			// the conclusion of remove_unused_calls_loop_graph on the REAL graphs before / after the real edit
+			bn, odd1, err1 := c19GraphNodes(base.Graph)
+			an, odd2, err2 := c19GraphNodes(after.Graph)
+			if err1 != nil || err2 != nil || odd1 != "" || odd2 != "" {
+				continue
+			}
+			if d := c19GraphLe(an, bn); d != "" {
+				r.violate(Violation{Kind: "property", Key: "C19:graph-theorem:remove-unused-calls-changed-a-remaining-node",
+					What:   "after the real `remove unused calls` edit a remaining node of the resolved call graph differs from the node before (StructOK holds, so remove_unused_calls_loop_graph applies): " + d,
+					Input:  c19Replay{Program: cs.Src, Edit: e, Note: "found in " + cs.Name},
+					Impl:   out,
+					Broken: "Props.C19.remove_unused_calls_loop_graph on the real code"})
+			} else {
+				r.hist(fmt.Sprintf("graph-theorem:removeCalls:real-graph-le(removed-nodes=%d)", len(bn)-len(an)))
+			}
 			continue
 		}
 		if err != nil || after.Graph == nil {
